@@ -374,7 +374,11 @@ func c08Configs(tier string) []*xplore.Config {
 		out = append(out, &xplore.Config{
 			Name: fmt.Sprintf("%s,startSeq=%d,now=%d", c.proto, c.seq, c.now), NumOps: len(ops), OpName: func(i int) string { return ops[i].name },
 			New: func() xplore.Sys {
-				return &c08sys{x: newExpSession(c.proto, 4711, c.seq, time.Unix(c.now, 500_000_000)), ops: ops, ts: ts}
+				dom := uint32(4711)
+				if c.proto == "udp" {
+					dom = 0 // 0 is a legal observation domain id like any other
+				}
+				return &c08sys{x: newExpSession(c.proto, dom, c.seq, time.Unix(c.now, 500_000_000)), ops: ops, ts: ts}
 			},
 			Enabled: enabled, HistDepth: c.hd,
 		})
